@@ -251,6 +251,8 @@ def _run_case(ctx, fn, case, stats):
         return v
     except CaseTimeout:
         stats.timeouts += 1
+        stats.errors.append("watchdog (%ds) fired in case:\n%s\ncase: %s" % (
+            CASE_TIMEOUT, traceback.format_exc(limit=25), _show(case, 3000)))
         return None
     except (KeyboardInterrupt, SystemExit, HarnessAbort):
         raise
@@ -332,7 +334,7 @@ def _hyp_body(job, k):
                 break
             continue
     if final is not None:
-        final.errors = []
+        final.errors = [e for e in final.errors if e.startswith("watchdog")]
         # known hits pinned in later rounds are unlisted failures already recorded
         for key in list(final.known_hits):
             if key.startswith("(pinned)"):
